@@ -4,6 +4,8 @@
   tools_seed.py import <srcdir> <seed-id> <property>   verify a sub-agent's mutation and store it as seeded/<seed-id>/
   tools_seed.py run [seed-id ...]                      apply each stored patch to /repo, run the property's check(s), undo
   tools_seed.py runall [seed-id ...]                   same, but run every claimed check (cross-detection table)
+  tools_seed.py import-benign <srcdir> <id> <property> verify a behaviour-preserving refactoring and store it as benign/<id>/
+  tools_seed.py runbenign [id ...]                     apply each to /repo, run every claimed check (expected: silence), undo
 
 Verification (import): in a scratch worktree of /repo (removed afterwards) the
 demonstration must pass on the clean tree, the full test suite must pass with
@@ -193,6 +195,93 @@ def cmd_port(sid):
     return rc
 
 
+BENIGN = os.path.join(VERIF, 'benign')
+
+
+def verify_benign(patch, equiv):
+    """A behaviour-preserving refactoring: equiv.py passes on the clean tree and with the patch, the full
+    test suite passes with the patch."""
+    wt = tempfile.mkdtemp(prefix='benignverify_')
+    os.rmdir(wt)
+    rc, out = sh(['git', '-C', '/repo', 'worktree', 'add', '-q', '--detach', wt, 'HEAD'])
+    assert rc == 0, out
+    res = {}
+    try:
+        with open(os.path.join(wt, 'petl', 'version.py'), 'w') as f:
+            f.write("version = '0.1.dev1'\n")
+        env = dict(os.environ, PYTHONPATH=wt)
+        rc, out = sh([PY, equiv], cwd=wt, env=env)
+        res['equiv_clean_rc'] = rc
+        rc, out = sh(['git', '-C', wt, 'apply', patch])
+        res['apply_rc'] = rc
+        if rc != 0:
+            res['apply_out'] = out[-500:]
+            return res
+        rc, out = sh([PY, '-m', 'pytest', '-q', '-p', 'no:cacheprovider', '--timeout=900'], cwd=wt, env=env)
+        tail = out.strip().splitlines()[-1] if out.strip() else ''
+        res['tests_tail'] = tail
+        m = re.search(r'(\d+) passed', tail)
+        res['tests_passed'] = int(m.group(1)) if m else 0
+        res['tests_failed'] = 'failed' in tail or 'error' in tail
+        rc, out = sh([PY, equiv], cwd=wt, env=env)
+        res['equiv_patched_rc'] = rc
+        res['equiv_patched_tail'] = out.strip().splitlines()[-2:] if out.strip() else []
+    finally:
+        sh(['git', '-C', '/repo', 'worktree', 'remove', '--force', wt])
+        shutil.rmtree(wt, ignore_errors=True)
+    res['ok'] = (res.get('equiv_clean_rc') == 0 and res.get('tests_passed') == 481 and
+                 not res.get('tests_failed') and res.get('equiv_patched_rc') == 0)
+    return res
+
+
+def cmd_import_benign(src, bid, prop):
+    patch = os.path.join(src, 'patch.diff')
+    equiv = os.path.join(src, 'equiv.py')
+    res = verify_benign(patch, equiv)
+    print(json.dumps(res, indent=1))
+    if not res.get('ok'):
+        print('NOT KEPT: verification failed')
+        return 1
+    dst = os.path.join(BENIGN, bid)
+    os.makedirs(dst, exist_ok=True)
+    shutil.copy(patch, os.path.join(dst, 'patch.diff'))
+    shutil.copy(equiv, os.path.join(dst, 'equiv.py'))
+    if os.path.exists(os.path.join(src, 'notes.md')):
+        shutil.copy(os.path.join(src, 'notes.md'), os.path.join(dst, 'notes.md'))
+    meta = {'id': bid, 'property': prop,
+            'origin': 'independent sub-agent asked for behaviour-preserving refactorings of the code the property depends on '
+                      '(given only the property text and a scratch worktree)',
+            'verified': {'what_i_ran': [
+                'git worktree add <scratch> HEAD; stub petl/version.py',
+                'PYTHONPATH=<scratch> /venv/bin/python equiv.py -> exit %s (clean tree)' % res['equiv_clean_rc'],
+                'git apply patch.diff; /venv/bin/python -m pytest -q -p no:cacheprovider --timeout=900 -> %s' % res['tests_tail'],
+                'PYTHONPATH=<scratch> /venv/bin/python equiv.py -> exit %s (patched)' % res['equiv_patched_rc'],
+                'git worktree remove --force <scratch>']},
+            'alarms': {}}
+    json.dump(meta, open(os.path.join(dst, 'meta.json'), 'w'), indent=1)
+    print('kept as', dst)
+    return 0
+
+
+def cmd_run_benign(ids):
+    """Apply each benign refactoring to /repo, run every claimed check, undo; any exit 1 / 2 is an alarm to triage."""
+    ids = ids or sorted(os.listdir(BENIGN))
+    cl = claimed()
+    for bid in ids:
+        d = os.path.join(BENIGN, bid)
+        mp = os.path.join(d, 'meta.json')
+        meta = json.load(open(mp))
+        res = run_checks(os.path.join(d, 'patch.diff'), cl)
+        alarms = {p: r for p, r in res.items() if r['rc'] != 0}
+        meta['alarms'] = {p: {'rc': r['rc'], 'reports': r['reports'][:3]} for p, r in alarms.items()}
+        json.dump(meta, open(mp, 'w'), indent=1)
+        print('%-14s %s: %s' % (bid, meta['property'], ('ALARM ' + ','.join('%s(rc=%d)' % (p, r['rc']) for p, r in sorted(alarms.items())))
+                                if alarms else 'silent'))
+        for p, r in alarms.items():
+            for l in r['reports'][:2]:
+                print('      ', l[:230])
+
+
 def cmd_table():
     rows = []
     for sid in sorted(os.listdir(SEEDED)):
@@ -220,6 +309,11 @@ if __name__ == '__main__':
         sys.exit(cmd_port(a[1]))
     if a and a[0] == 'import':
         sys.exit(cmd_import(a[1], a[2], a[3]))
+    if a and a[0] == 'import-benign':
+        sys.exit(cmd_import_benign(a[1], a[2], a[3]))
+    if a and a[0] == 'runbenign':
+        cmd_run_benign(a[1:])
+        sys.exit(0)
     elif a and a[0] == 'run':
         cmd_run(a[1:])
     elif a and a[0] == 'runall':
